@@ -1,4 +1,64 @@
-import CacheVerif.Model.Proto
+import CacheVerif.Proofs.ProtoLocks
+/-!
+# C16 — reads never wait for writers: lookups finish while a writer or resize stalls
+
+In M4a a lookup (`Load`, `Size`, the lock-free fast path of `LoadOrStore`/`LoadOrCompute`) is two steps of the
+caller (read the table pointer, read the chain / the counter); no guard of these steps depends on any other
+thread, and they write nothing shared.  Hence from *every* state — reachable or not, whatever the other threads
+are doing: inside `valueFn`, between any two of their atomic operations, between table copy and publish — a
+solo run of the reader finishes in 2 of its own steps.  That the real multi-read scan of a chain (M4b) is bounded
+by the chain length in a solo run, and the cache-level statement, are in `Props/C16` of M4b/M5 (see DESIGN.md).
+-/
 namespace Props.C16
-theorem placeholder : True := trivial
+open Model.Proto Proofs.ProtoLocks
+
+variable {K V : Type} [DecidableEq K] (p : Params K)
+
+/-- no lookup step can be blocked: the guards of the lookup pcs mention no other thread -/
+theorem C16_no_wait (t : Tid) (g : G K V) (l : L K V) (c : Choice K V)
+    (hpc : l.pc = .ldTable ∨ l.pc = .szTable ∨ l.pc = .szSum ∨ l.pc = .dcFast ∨ (l.pc = .ldRead ∧ (opKey l).isSome)) :
+    (tstep p t g l c).isSome :=
+  reader_never_blocked p t g l c hpc
+
+/-- lookups take no lock and write nothing shared -/
+theorem C16_reads_only (t : Tid) (g : G K V) (l : L K V) (c : Choice K V) (g' : G K V) (l' : L K V)
+    (hpc : l.pc = .ldTable ∨ l.pc = .ldRead ∨ l.pc = .szTable ∨ l.pc = .szSum ∨ l.pc = .dcFast)
+    (hs : tstep p t g l c = some (g', l')) : g' = g :=
+  reader_writes_nothing p t g l c g' l' hpc hs
+
+/-- run thread `t` alone for `n` steps (every other thread frozen: the globals change only through `t`) -/
+def soloRun (t : Tid) (g : G K V) (l : L K V) : List (Choice K V) → Option (G K V × L K V)
+  | [] => some (g, l)
+  | c :: cs =>
+    match tstep p t g l c with
+    | some (g', l') => soloRun t g' l' cs
+    | none => none
+
+/-- **solo run**: a `Load k` started in *any* global state — whatever the other threads are in the middle of —
+completes in three steps of the caller alone (start, read the table pointer, read the chain), changes nothing
+shared, and returns the content of the current table for `k` (the last completely written value: a half-done
+insert is not yet in `data`) -/
+theorem C16_solo_load (t : Tid) (g : G K V) (l : L K V) (k : K) (hl : l.pc = .idle) :
+    match soloRun p t g l [{ op := some (.load k) }, {}, {}] with
+    | some (g', l') => g' = g ∧ l'.pc = .ret ∧
+        l'.result = some (.val ((g.tables g.cur).data.get k) ((g.tables g.cur).data.get k).isSome)
+    | none => False := by
+  simp [soloRun, tstep, hl, startOp, opKey]
+
+/-- **solo run of `Size`**: three steps, returns the counter of the current table -/
+theorem C16_solo_size (t : Tid) (g : G K V) (l : L K V) (hl : l.pc = .idle) :
+    match soloRun p t g l [{ op := some .size }, {}, {}] with
+    | some (g', l') => g' = g ∧ l'.pc = .ret ∧ l'.result = some (.size (g.tables g.cur).size)
+    | none => False := by
+  simp [soloRun, tstep, hl, startOp]
+
+/-- **the hit path of `LoadOrStore`/`LoadOrCompute`** never reaches a lock either: if the key is present the
+call returns after the lock-free read, in three steps of the caller alone, without calling its function -/
+theorem C16_solo_loadOrStore_hit (t : Tid) (g : G K V) (l : L K V) (k : K) (f : Option V → V × Bool) (x : V)
+    (hl : l.pc = .idle) (hx : (g.tables g.cur).data.get k = some x) :
+    match soloRun p t g l [{ op := some (.dc k f true false) }, {}, {}] with
+    | some (g', l') => g' = g ∧ l'.pc = .ret ∧ l'.result = some (.val (some x) true) ∧ l'.fnCalls = 0
+    | none => False := by
+  simp [soloRun, tstep, hl, startOp, opKey, hx]
+
 end Props.C16
